@@ -30,6 +30,9 @@ def run(ctx):
     ctx.guard(forward, ctx)
     from . import scope
     ctx.guard(scope.containment, ctx, 'C14-SCOPE')
+    from . import c01 as _c01
+    from .common import AssocModel as _AM
+    ctx.shared(_c01.rop_identity, ctx, _AM(ctx.repo))   # the extracted associations are written by serialize_association
     ctx.assume('the effect of edit scripts on concrete BridgePoint models is not decided')
     ctx.assume('writing the schema and loading it back is decided by the C01 rules')
     return ('Schema type-check of the ooaofooa navigations; provenance (after substituting local definitions) of each keyword '
